@@ -160,7 +160,7 @@ package tree
 //@   flag countcalls
 //@   requires t != nil
 //@   allocates map[string]*Node, bitset.BitSet, []*Node, []*Edge, []string, iface
-//@   assigns mapof("map[string]*Node"), Node.tipid, Node.depth, Node.rootdepth, Edge.bitset, Edge.hashcodeleft, Edge.hashcoderight, Edge.ntaxleft, Edge.ntaxright, ghost(bs_bits), ghost(bs_len), ghost(tipindex_stale), ghost(ncalls_UpdateTipIndex), ghost(ncalls_ClearBitSets), ghost(ncalls_UpdateBitSet), ghost(ncalls_ComputeEdgeHashes), ghost(ncalls_ComputeDepths)
+//@   assigns mapof("map[string]*Node"), Node.tipid, Node.depth, Node.rootdepth, Edge.bitset, Edge.hashcodeleft, Edge.hashcoderight, Edge.ntaxleft, Edge.ntaxright, ghost(bs_bits), ghost(bs_len), ghost(tipindex_stale)
 //@   call (*tree.Tree).ClearBitSets [bitsets_are_recreated_after_the_name_index_was_rebuilt] ghost(ncalls_UpdateTipIndex) == old(ghost(ncalls_UpdateTipIndex)) + 1 && err == nil
 //@   call (*tree.Tree).UpdateBitSet [bitsets_are_filled_after_they_were_recreated] ghost(ncalls_ClearBitSets) == old(ghost(ncalls_ClearBitSets)) + 1 && err == nil
 //@   call (*tree.Tree).ComputeEdgeHashes [hash_sums_after_the_bitsets] ghost(ncalls_UpdateBitSet) == old(ghost(ncalls_UpdateBitSet)) + 1 && err == nil && a1 == nil
@@ -1054,7 +1054,7 @@ package tree
 //@   flag countcalls
 //@   requires t != nil
 //@   allocates bitset.BitSet, iface, []*Node, []*Edge, []string
-//@   assigns Edge.bitset, Edge.hashcodeleft, Edge.hashcoderight, Edge.ntaxleft, Edge.ntaxright, Node.depth, Node.rootdepth, ghost(bs_bits), ghost(bs_len), ghost(ncalls_ClearBitSets), ghost(ncalls_UpdateBitSet), ghost(ncalls_ComputeEdgeHashes), ghost(ncalls_ComputeDepths)
+//@   assigns Edge.bitset, Edge.hashcodeleft, Edge.hashcoderight, Edge.ntaxleft, Edge.ntaxright, Node.depth, Node.rootdepth, ghost(bs_bits), ghost(bs_len)
 //@   call (*tree.Tree).UpdateBitSet [bitsets_are_filled_after_they_were_recreated] ghost(ncalls_ClearBitSets) == old(ghost(ncalls_ClearBitSets)) + 1
 //@   call (*tree.Tree).ComputeEdgeHashes [hash_sums_after_the_bitsets] ghost(ncalls_UpdateBitSet) == old(ghost(ncalls_UpdateBitSet)) + 1 && a1 == nil
 //@   call (*tree.Tree).ComputeDepths [depths_last] ghost(ncalls_ComputeEdgeHashes) == old(ghost(ncalls_ComputeEdgeHashes)) + 1
